@@ -12,7 +12,7 @@ def items(ctx):
     q = ctx.quick
     rng = ctx.rng("c16")
     out = []
-    for _ in range(140 if q else 2500):
+    for _ in range(400 if q else 2500):
         nd = rng.choice([1, 1, 1, 2])
         n = rng.randint(3, 8)
         equal = rng.random() < 0.6
@@ -36,7 +36,7 @@ def items(ctx):
         out.append({"series": sers, "fits": fits, "matrix": rng.random() < 0.4})
     # options that bind (window 1, penalty 2-3, per-series psi) on longer and multivariate series: an assignment
     # helper that drops or mangles dists_options then picks a mean that is not nearest
-    for _ in range(80 if q else 1500):
+    for _ in range(200 if q else 1500):
         nd = rng.choice([1, 2, 2])
         n = rng.randint(4, 7)
         L = rng.randint(4, 6)
